@@ -267,6 +267,19 @@ def layouts():
     # a plain string literal continued with a backslash: the continuation line belongs to the literal as well
     L.append(("string_backslash_continued", lambda d, c, desc: ["@{}(lambda x, xs: 'z' != 'a\\".format(d), "    b' and ({}))".format(c)]))
     L.append(("string_backslash_continued_column0", lambda d, c, desc: ["@{}(lambda x, xs: 'z' != 'a\\".format(d), "<COL0>b' and ({}))".format(c)]))
+    # legal spellings of the decorator line itself
+    L.append(("space_after_at", lambda d, c, desc: ["@ {}(lambda x, xs: {})".format(d, c)]))
+    L.append(("parenthesised_decorator", lambda d, c, desc: ["@({}(lambda x, xs: {}))".format(d, c)]))
+    L.append(("parenthesised_many_lines", lambda d, c, desc: ["@(", "    {}(".format(d), "        lambda x, xs: {}".format(c), "    )", ")"]))
+    # a line inside a string literal of the decorator which looks like the start of a decorator
+    L.append(("at_line_in_description", lambda d, c, desc: ["@{}(".format(d), "    description=\"\"\"the description", "    @see the manual\"\"\",",
+                                                            "    condition=lambda x, xs: {})".format(c)]))
+    # continuation lines whose indentation has nothing in common with the one of the decorator line (legal inside parentheses)
+    L.append(("continuation_at_column0", lambda d, c, desc: ["@{}(lambda x, xs:".format(d), "<COL0>{})".format(c)]))
+    L.append(("continuation_tabs", lambda d, c, desc: ["@{}(".format(d), "<COL0>\t\tlambda x, xs:", "<COL0>\t\t{})".format(c)]))
+    L.append(("continuation_formfeed", lambda d, c, desc: ["@{}(".format(d), "<COL0>\flambda x, xs: {})".format(c)]))
+    # a nested f-string inside a multi-line f-string
+    L.append(("string_nested_fstring", lambda d, c, desc: ["@{}(lambda x, xs: 'z' != f\"\"\"{{f'{{1}}'}}a".format(d), "    b\"\"\" and ({}))".format(c)]))
     L.append(("error_kw_after", lambda d, c, desc: ["@{}(lambda x, xs: {}, error=MyErr)".format(d, c)]))
     return L
 
@@ -274,7 +287,9 @@ def layouts():
 NEIGHBOURS = ["none", "icontract_above", "icontract_below", "foreign_above", "foreign_below", "both"]
 SCOPES = ["module", "class", "nested_class", "nested_function"]
 TARGETS = ["def", "async def", "class"]
-ALIASES = ["icontract.require", "req", "ic.require", "icontract.ensure", "icontract.invariant"]
+# legal but unusual spellings of the statement which follows the decorators
+ODD_TARGETS = ["def_tab", "async_backslash", "async_two_blanks", "class_tab"]
+ALIASES = ["icontract.require", "req", "ic.require", "icontract.ensure", "icontract.invariant", "\u00e9tat.require"]
 
 
 def render_layout(layout_fn, alias, cond, neighbours, scope, target):
@@ -292,7 +307,9 @@ def render_layout(layout_fn, alias, cond, neighbours, scope, target):
             c = c.replace("defined(x)", "defined(self.x)").replace("classes_ok(xs)", "classes_ok(self.xs)").replace("async_def_ok(x)", "async_def_ok(self.x)")
     if any("@M or" in ln for ln in deco):
         c = "(M @ M or " + c + ")"
-    string_layout = len(deco) == 2 and deco[0].endswith('"""a')
+    string_layout = len(deco) == 2 and '"""' in deco[0] and deco[0].endswith("a")
+    nested_fstring_layout = string_layout and "{f'{1}'}" in deco[0]
+    description_with_at = any("@see the manual" in ln for ln in deco)
     backslash_layout = len(deco) == 2 and deco[0].endswith("'a\\")
     if is_inv:
         deco = [ln.replace("lambda x, xs:", "lambda self:") for ln in deco]
@@ -306,30 +323,39 @@ def render_layout(layout_fn, alias, cond, neighbours, scope, target):
         below.append(other_i.replace("True", "1 == 1"))
     if neighbours in ("foreign_below",) and not is_inv:
         below.append("@fw")
-    if is_inv or target == "class":
+    if is_inv or target in ("class", "class_tab"):
         if not is_inv:
             return None
-        tgt = ["class K:", "    def __init__(self, x, xs):", "        self.x = x", "        self.xs = xs"]
+        tgt = ["class\tK:" if target == "class_tab" else "class K:", "    def __init__(self, x, xs):", "        self.x = x", "        self.xs = xs"]
         call = "K(X, XS)"
-    elif target == "async def":
-        tgt = ["async def f(x, xs):", "    return 1"]
+    elif target in ("async def", "async_backslash", "async_two_blanks"):
+        tgt = {"async def": ["async def f(x, xs):"], "async_backslash": ["async \\", "    def f(x, xs):"],
+               "async_two_blanks": ["async  def f(x, xs):"]}[target] + ["    return 1"]
         call = "RUN(f(X, XS))"
+    elif target == "def_tab":
+        tgt = ["def\tf(x, xs):", "    return 1"]
+        call = "f(X, XS)"
     else:
         tgt = ["def f(x, xs):", "    return 1"]
         call = "f(X, XS)"
     block = above + deco + below + tgt
-    hdr = ["import functools", "import icontract", "import icontract as ic", "req = icontract.require", "class MyErr(Exception): pass",
+    hdr = ["import functools", "import icontract", "import icontract as ic", "import icontract as \u00e9tat", "req = icontract.require", "class MyErr(Exception): pass",
            "def defined(v): return True", "def classes_ok(v): return True", "def async_def_ok(v): return True",
            "class _M:", "    def __matmul__(self, other): return 0", "    def __repr__(self): return 'M'", "M = _M()",
            "def fw(fn):", "    @functools.wraps(fn)", "    def w(*a, **k):", "        return fn(*a, **k)", "    return w",
            "def RUN(c):", "    try:", "        while True: c.send(None)", "    except StopIteration as s:", "        return s.value", ""]
     ind = {"module": 0, "class": 1, "nested_class": 2, "nested_function": 1}[scope]
     pad = "    " * ind
+    if description_with_at:
+        desc = "the description\n" + pad + "    @see the manual"
     if string_layout:
         # the value of the literal: everything between the quotes as it stands in the file
         second = deco[1]
         tail = second[len("<COL0>"):] if second.startswith("<COL0>") else pad + second
-        c = "'z' != {!r} and ({})".format("a\n" + tail.split('"""')[0], c)
+        if nested_fstring_layout:
+            c = "'z' != f{!r} and ({})".format("{f'{1}'}a\n" + tail.split('"""')[0], c)
+        else:
+            c = "'z' != {!r} and ({})".format("a\n" + tail.split('"""')[0], c)
     if backslash_layout:
         second = deco[1]
         tail = second[len("<COL0>"):] if second.startswith("<COL0>") else pad + second
@@ -372,6 +398,12 @@ def layout_cases(tier):
                             if tier == "quick" and ci != (li + ni) % 3:
                                 continue
                             out.append((lname, alias, cond, neigh, scope, target))
+    for lname in ("one_line", "body_many_lines", "comment_after_decorator"):
+        for alias in ALIASES:
+            for neigh in ("none", "both"):
+                for scope in SCOPES:
+                    for target in ODD_TARGETS:
+                        out.append((lname, alias, CONDS[(len(out)) % 3], neigh, scope, target))
     return out
 
 
@@ -415,7 +447,7 @@ def check_layout(case, acc, lay_by_name):
                 bad = ("location_scope", "{!r} expected {!r}".format(m.group(3), exp_scope))
             else:
                 rest = msg.split("\n", 1)[1]
-                if has_desc and desc in src and not rest.startswith(desc + ": ") and "description" in lname or (lname in ("one_line_desc_pos", "one_line_desc_kw", "body_many_lines", "kw_condition_first", "kw_condition_last", "kw_condition_middle", "kw_multi_line", "continuation_starts_like_def") and not rest.startswith(desc + ": ")):
+                if has_desc and desc in src and not rest.startswith(desc + ": ") and "description" in lname or (lname in ("one_line_desc_pos", "one_line_desc_kw", "body_many_lines", "kw_condition_first", "kw_condition_last", "kw_condition_middle", "kw_multi_line", "continuation_starts_like_def", "at_line_in_description") and not rest.startswith(desc + ": ")):
                     bad = ("description_missing", rest[:120])
                 else:
                     if rest.startswith(desc + ": "):
